@@ -15,11 +15,12 @@ Record case := mkCase {
   others_same : bool;                (* every other source is accepted/rejected as without the bad one *)
   build_ok : bool;                   (* build() did not panic *)
   scans_equal : bool;                (* scan dumps (normal + fast-scan mode) equal *)
-  no_panic : bool }.                 (* no scan panicked *)
+  no_panic : bool;                   (* no scan panicked *)
+  warnings_same : bool }.            (* warnings() about the other sources are the same *)
 
 Definition check_case (k : case) : bool :=
   forallb (fun c => snd c || existsb (String.eqb (fst c)) failing_fields) (comps k).
 
 Definition spec_case (k : case) : bool :=
-  recorded k && others_same k && build_ok k && scans_equal k && no_panic k
+  recorded k && others_same k && build_ok k && scans_equal k && no_panic k && warnings_same k
   && forallb snd (comps k).
